@@ -39,7 +39,11 @@ def last_four(ts):
     return ts[-4:]
 
 
-FILTERS = {"negate": negate, "cumsum": cumsum, "double": double, None: None}
+def halve(x):
+    return x * 0.5   # non-integer output on integer-typed input
+
+
+FILTERS = {"negate": negate, "cumsum": cumsum, "double": double, "halve": halve, None: None}
 
 
 def stub_classes():
@@ -137,12 +141,15 @@ MAXLEN = [3]
 def check_config(name, o, D, res, viol):
     base_compute = name != "likelihood"
     wsets = [None] + ([[1.0, 0.0], [0.3, 0.7], [2, 1], [1, 0]] if D == 2 else [[2.0], [3]])
-    fsets = [None] + ([["double", None], ["cumsum", "negate"]] if D == 2 else [["cumsum"]])
-    M = menu(D)
-    for w in wsets:
-        for f in fsets:
+    fsets = [None] + ([["double", None], ["cumsum", "negate"], [None, "halve"]] if D == 2 else [["cumsum"], ["halve"]])
+    M0 = menu(D)
+    # the same simulated numbers typed as integers (counts from an agent-based model), with a real-valued filter on a later coordinate
+    MI = [(np.round(s_ * 8.0).astype(np.int64), r_ * 8.0) for s_, r_ in M0]
+    combos = [(w, f, M0) for w in wsets for f in fsets] + [(w, f, MI) for w in (None, wsets[1]) for f in fsets if f and "halve" in f]
+    for w, f, M in combos:
+        if True:
             case = {"loss": name, "opts": o, "D": D, "weights": w, "filters": f}
-            tag = f"{name}{o} D={D} weights={w} filters={f}"
+            tag = f"{name}{o} D={D} weights={w} filters={f}" + (" sim_dtype=int64" if M is MI else "")
             if RAISED:
                 viol("compute-loss-raises:" + name, f"{name}{o} D={D}: compute_loss raised on a well-formed input: {RAISED[0]}", case)
                 del RAISED[:]
@@ -161,8 +168,23 @@ def check_config(name, o, D, res, viol):
                     sim[...] = np.frombuffer(s0).reshape(sim.shape)
             if canon(vars(loss)) != before:
                 viol("loss-object-state-changed:" + name, f"{tag}: the loss object's attributes changed through evaluations ({[k for k in vars(loss) if canon(vars(loss)[k]) != dict(before[1]).get(k)]})", case)
+            # 1b. real data with missing observations (NaN) or +-inf: whatever the loss makes of them (a value, NaN or an exception),
+            #     the caller's arrays come back untouched
+            for bad in (np.nan, np.inf):
+                sim_b, real_b = M[3][0].astype(float).copy(), M[3][1].copy()
+                real_b[[2, 5], -1] = bad
+                real_b[7, 0] = -bad if bad == bad else bad
+                s0, r0 = sim_b.tobytes(), real_b.tobytes()
+                try:
+                    with np.errstate(all="ignore"):
+                        make(name, o, w, f).compute_loss(sim_b, real_b)
+                except Exception:  # noqa: BLE001
+                    pass
+                res["evaluations"] += 1
+                if sim_b.tobytes() != s0 or real_b.tobytes() != r0:
+                    viol("input-modified:" + name, f"{tag}: compute_loss modified its {'simulated' if sim_b.tobytes() != s0 else 'real'} input when the real data contain {bad}", case)
             # 2. history independence: every sequence of <= 3 evaluations
-            for L in range(1, MAXLEN[0] + 1 if name != "msm" else 4):
+            for L in range(1, (MAXLEN[0] + 1 if name != "msm" else 4) if M is M0 else 2):
                 for seq in itertools.product(range(4), repeat=L):
                     loss = make(name, o, w, f)
                     for i in seq:
